@@ -251,8 +251,8 @@ def main_check(check_name, tier, replay=None):
             print(f"VIOLATION property={prop} replay={path}")
         exit_code = 1
     elif merged["inconclusive"]:
-        for r in merged["inconclusive"][:10]:
-            print(f"INCONCLUSIVE property={prop} reason={r[:800]}")
+        for r in merged["inconclusive"][:3]:
+            print(f"INCONCLUSIVE property={prop} reason={r[-500:]}")
         exit_code = 2
 
     # ---- evidence ----
